@@ -7,7 +7,7 @@
 (*   env SCOPE selects the scope.                                           *)
 (***************************************************************************)
 EXTENDS Naturals, Integers, Sequences, FiniteSets, SequencesExt,
-        FiniteSetsExt, TLC, Json, IOUtils, Text, Vlq
+        FiniteSetsExt, TLC, Json, IOUtils, Text, Vlq, VlqW
 
 Scope == IOEnv.SCOPE
 
@@ -197,9 +197,30 @@ ReplPairThenSibling ==
             y \in {Orig(<<cA>>), Orig(<<cA, NL, cA>>)}} :
           x \in {Orig(<<cA, NL, cA>>), Orig(<<cA, cA, NL, cA>>)}}
 
+(* Texts that are not ASCII in trees whose columns are byte offsets          *)
+(* throughout (Sem!ByteColumnTree): binary leaves with invalid sequences on *)
+(* their last line (the lossy text is longer than the bytes), multi-byte    *)
+(* characters, each followed by a mapped sibling on the same line, between  *)
+(* two mapped children, on a later line of a two-line leaf, beneath a        *)
+(* ReplaceSource; and OriginalSources with multi-byte text.                  *)
+ByteLeaves ==
+  {Raw(sub, b) : sub \in {"buf", "rawbuf"},
+     b \in {<<97, 255, 32>>, <<240, 159>>, <<255, 254>>, <<97, 10, 255>>, <<255, 10, 97>>,
+            <<226, 130, 172>>, <<97, 240, 159, 152, 128>>}}
+  \cup {Raw(sub, b) : sub \in {"str", "rawstr"}, b \in {<<195, 169, 32>>, <<97, 10, 226, 130, 172>>}}
+  \cup {[k |-> "orig", b |-> b, name |-> <<117, 46, 106, 115>>] :
+          b \in {<<195, 169, 59, 97>>, <<97, 59, 226, 130, 172, 10, 97>>}}
+BytePosTrees ==
+  {CC(<<l, Orig(<<cA, cSC, cA, NL, cA>>)>>) : l \in ByteLeaves}
+  \cup {CC(<<Orig(<<cA>>), l, Orig(<<cA, cSC>>)>>) : l \in ByteLeaves}
+  \cup {CC(<<l, Raw("str", <<cA>>), Orig(<<cA>>)>>) : l \in ByteLeaves}
+  \cup {Replace(CC(<<l, Orig(<<cA, cSC, cA>>)>>), <<Repl(0, 0, <<cX>>)>>) : l \in ByteLeaves}
+  \cup {CC(<<Replace(l, <<Repl(0, 0, <<cX>>)>>), Orig(<<cA, cSC>>)>>) : l \in ByteLeaves}
+  \cup {CC(<<Box(l), Orig(<<cA>>)>>) : l \in ByteLeaves}
+
 TreesSmall ==
   IF Scope \notin {"c01","c02"} THEN {} ELSE
-  LeavesRich \cup Pairs \cup ReplOverLeaf1 \cup ReplOverLeaf2
+  BytePosTrees \cup LeavesRich \cup Pairs \cup ReplOverLeaf1 \cup ReplOverLeaf2
   \cup ReplOverPair \cup Wrapped \cup ReplThenSibling \cup ReplPairThenSibling \cup ManyPieces
   \cup ResliceTrees
 
@@ -231,8 +252,9 @@ StreamObs ==
 ViewObs(n) ==
   <<Obs("source"), Obs("buffer"), Obs("size"), Obs("rope")>>
   \o [i \in 1..(n + 1) |-> Writer("err", i - 1)]
+  \o [i \in 1..(n + 1) |-> Writer("flaky", i - 1)]
   \o <<Writer("zero", 0), Writer("zero", n \div 2), Writer("intr", 0),
-       Writer("intr", n \div 2), Writer("chunky", 0), Writer("ok", 0)>>
+       Writer("intr", n \div 2), Writer("chunky", 0), Writer("chunk7", 0), Writer("ok", 0)>>
 
 Prog(steps) == [steps |-> steps]
 
@@ -949,7 +971,8 @@ C14Differ(t, e, o1) ==
   Prog(<<[op |-> "build", dst |-> 0, tree |-> t], [op |-> "build", dst |-> 1, tree |-> e],
          EqStep(0, 1), EqStep(1, 0)>> \o o1
        \o <<EqStep(0, 1), EqStep(1, 0), HashOn(0), HashOn(1), ObsOn("source", 0),
-            ObsOn("source", 1), MapOn(0, TRUE), MapOn(1, TRUE), EqStep(0, 1)>>)
+            ObsOn("source", 1), MapOn(0, TRUE), MapOn(1, TRUE),
+            ObsOn("buffer", 0), ObsOn("buffer", 1), ObsOn("size", 0), ObsOn("size", 1), EqStep(0, 1)>>)
 
 (* equal call sequences, different observer histories: r0 is observed between *)
 (* the mutating calls (its lazily sorted index is valid when the next call    *)
@@ -986,6 +1009,9 @@ C14Scope ==
                  e \in Edits(t) \ {t}} : t \in BaseTrees}
   \cup UNION {{C14Differ(t, e, o1) : e \in Edits(t) \ {t}, o1 \in {<<>>, <<ObsOn("source", 0)>>, <<HashOn(0)>>}} :
                t \in BaseTrees}
+  \* all pairs of base trees (among them leaves with the same lossy text and different bytes, the same
+  \* bytes held as text and as buffer): whatever compares equal must answer every observer alike
+  \cup {C14Differ(q[1], q[2], <<>>) : q \in {q \in BaseTrees \X BaseTrees : q[1] # q[2]}}
 
 -----------------------------------------------------------------------------
 (* SourceMap JSON (C15): strings over quotes, backslashes, control          *)
@@ -1138,6 +1164,8 @@ ProgSet ==
     [] Scope = "c20" -> C20Scope
     [] Scope \in {"c10", "c10full"} -> C10Scope
     [] Scope = "c12vlq" -> C12VlqScope
+    \* the whole u32 range of the fields (VlqW.tla): values and differences beyond TLC's integers
+    [] Scope = "c12wide" -> {Prog(<<[op |-> "codec_wide", segs |-> p]>>) : p \in WPairs \cup WTriples}
     [] Scope \in {"c09", "c09full"} -> C09Scope
     [] Scope = "c07" -> {Prog(<<Build(t)>> \o ViewObs(9)) : t \in ViewTrees}
     [] OTHER -> {}
